@@ -204,7 +204,9 @@ func (root *Root) regField(obj *Object, fd *FieldDef, goField string, args ...st
 	if meta.Kind() == reflect.Struct {
 		if field, ok := meta.FieldByNameFunc(func(name string) bool {
 			return strings.EqualFold(name, goField)
-		}); ok {
+		}); ok && field.PkgPath == "" {
+			// Only an exported field (empty PkgPath) can be read by
+			// reflection. Anything else is left to the methods.
 			fd.goField = field.Name
 			if 0 < len(args) {
 				err = fmt.Errorf("%w: field %s on %s does not have argument", ErrMeta, goField, meta)
